@@ -45,8 +45,12 @@ class ConcreteEngine:
     def real(self, name: str, npy: bool = False):
         return _num(self._get(name, 0.0))
 
-    def boolean(self, name: str):
-        return bool(self._get(name, False))
+    def boolean(self, name: str, npy: bool = False):
+        v = bool(self._get(name, False))
+        if npy:
+            import numpy
+            return numpy.bool_(v)
+        return v
 
     def integer(self, name: str, lo=None, hi=None):
         return int(self._get(name, lo or 0))
